@@ -1,9 +1,12 @@
 #!/bin/sh
-# thorough tier for the listed properties (default: all), each under a wall-clock cap
+# thorough tier for the listed properties (default: all), each under a wall-clock cap;
+# full output of each check goes to $LOGDIR/thorough-<id>.log as it is produced
 cd /verif
+LOGDIR=${LOGDIR:-/tmp}
+CAP=${CAP:-5400}
 ids=${@:-$(python3 -c "import json;print(' '.join(c['property_id'] for c in json.load(open('MANIFEST.json'))['checks']))")}
 for id in $ids; do
   start=$(date +%s)
-  out=$(timeout 5400 bin/check $id thorough 2>&1); rc=$?
-  echo "$id rc=$rc $(($(date +%s)-start))s $(echo "$out" | egrep '^(OK|FAIL|INCONCLUSIVE|VIOLATION|KNOWN-FINDING|run )' | cut -c1-230 | tr '\n' '|')"
+  timeout $CAP bin/check $id thorough > $LOGDIR/thorough-$id.log 2>&1; rc=$?
+  echo "$id rc=$rc $(($(date +%s)-start))s $(egrep '^(OK|FAIL|INCONCLUSIVE|VIOLATION|KNOWN-FINDING|run )' $LOGDIR/thorough-$id.log | cut -c1-230 | tr '\n' '|')"
 done
